@@ -5,6 +5,7 @@ package main
 
 import (
 	"bytes"
+	"context"
 	"crypto/sha256"
 	"encoding/base64"
 	"encoding/json"
@@ -230,6 +231,43 @@ func redactKeeps(v gmsl.IRoomVersion, typ string, content map[string]interface{}
 		return "error", "custom top-level key survived redaction"
 	}
 	return "kept", ""
+}
+
+// joinQuerier answers CheckRestrictedJoin from a fixed room state: the joining user is in the allowed room.
+type joinQuerier struct {
+	state map[string]gmsl.PDU
+	info  *gmsl.RestrictedRoomJoinInfo
+}
+
+func (q *joinQuerier) CurrentStateEvent(ctx context.Context, roomID spec.RoomID, eventType string, stateKey string) (gmsl.PDU, error) {
+	if stateKey != "" {
+		return nil, nil
+	}
+	if ev, ok := q.state[eventType]; ok {
+		return ev, nil
+	}
+	return nil, nil
+}
+
+func (q *joinQuerier) InvitePending(ctx context.Context, roomID spec.RoomID, senderID spec.SenderID) (bool, error) {
+	return false, nil
+}
+
+func (q *joinQuerier) RestrictedRoomJoinInfo(ctx context.Context, roomID spec.RoomID, senderID spec.SenderID, localServerName spec.ServerName) (*gmsl.RestrictedRoomJoinInfo, error) {
+	return q.info, nil
+}
+
+func firstNonSpace(b []byte, skip int) byte {
+	for _, c := range b {
+		if c == ' ' || c == '\n' {
+			continue
+		}
+		if skip == 0 {
+			return c
+		}
+		skip--
+	}
+	return '?'
 }
 
 func runProbe(ver string, v gmsl.IRoomVersion, probe string) (string, string) {
@@ -474,6 +512,137 @@ func runProbe(ver string, v gmsl.IRoomVersion, probe string) (string, string) {
 			err = allowed(name, r.create, cj, pl)
 			return acc(err), short(err)
 		}
+
+	// ---- hardening pass: further entry points, boundaries, fields without effect ----
+	case "key_boundary":
+		at := ts(-1 * time.Hour)
+		return valid(v.SignatureValidityCheck(at, at)), ""
+	case "canon_maxint":
+		return canon(`{"a":9007199254740991,"b":-9007199254740991}`)
+	case "canon_exponent":
+		return canon(`{"a":1e2}`)
+	case "pl_string_users":
+		var c gmsl.PowerLevelContent
+		c.Defaults()
+		if err := v.ParsePowerLevels([]byte(`{"users":{"@alice:hs1":"50"}}`), &c); err != nil {
+			return "rejected", short(err)
+		}
+		return fmt.Sprintf("ok:%d", c.Users[alice]), ""
+	case "headered_roundtrip", "build_reuse", "sender_not_user_id":
+		r, err := newRoom(ver, v)
+		if err != nil {
+			return "setup-error", short(err)
+		}
+		switch probe {
+		case "headered_roundtrip":
+			h, err := r.create.ToHeaderedJSON()
+			if err != nil {
+				return "error", short(err)
+			}
+			back, err := gmsl.NewEventFromHeaderedJSON(h, false)
+			if err != nil {
+				return "error", short(err)
+			}
+			if string(back.Version()) != ver || back.EventID() != r.create.EventID() || !bytes.Equal(back.JSON(), r.create.JSON()) {
+				return "differs", fmt.Sprintf("version %s id %s", back.Version(), back.EventID())
+			}
+			return "same", ""
+		case "build_reuse":
+			eb := v.NewEventBuilderFromProtoEvent(&gmsl.ProtoEvent{SenderID: creator, RoomID: r.id, Type: "m.room.message",
+				PrevEvents: []string{r.create.EventID()}, AuthEvents: []string{citedAuthID}, Depth: 2, Content: []byte(`{"body":"x"}`)})
+			var shapes []string
+			for i := 0; i < 2; i++ {
+				ev, err := eb.Build(evNow, origin, keyID, testKey)
+				if err != nil {
+					return "error", short(err)
+				}
+				back, err := v.NewEventFromUntrustedJSON(ev.JSON())
+				if err != nil || back.Redacted() || back.EventID() != ev.EventID() {
+					return "unstable", fmt.Sprintf("build %d is not accepted as built (err=%v)", i+1, err)
+				}
+				var top map[string]json.RawMessage
+				_ = json.Unmarshal(ev.JSON(), &top)
+				_, hasID := top["event_id"]
+				shapes = append(shapes, fmt.Sprintf("%v|%c|%c", hasID, firstNonSpace(top["prev_events"], 1), firstNonSpace(top["auth_events"], 1)))
+			}
+			if shapes[0] != shapes[1] {
+				return "unstable", strings.Join(shapes, " vs ")
+			}
+			return "stable", ""
+		default: // sender_not_user_id: a sender that is a key, not a user ID
+			pseudo := string(spec.SenderIDFromPseudoIDKey(testKey))
+			_, err := build(v, evFields{Type: "m.room.message", Sender: pseudo, RoomID: r.id, Content: map[string]string{"body": "x"},
+				Prev: []string{r.create.EventID()}, Depth: 2})
+			if err != nil {
+				return "rejected", short(err)
+			}
+			return "accepted", ""
+		}
+	case "receipt_domainless_room_id":
+		in := handSigned(ver, v, evFields{Type: "c17.test", Sender: creator, RoomID: room43, Content: map[string]string{"body": "x"}})
+		if _, err := v.NewEventFromUntrustedJSON(in); err != nil {
+			return "rejected", short(err)
+		}
+		return "accepted", ""
+	case "addl_creator_power":
+		f := evFields{Type: spec.MRoomCreate, StateKey: strp(""), Sender: creator,
+			Content: map[string]interface{}{"creator": creator, "room_version": ver, "additional_creators": []string{alice}}}
+		if !specDomainless(ver) {
+			f.RoomID = "!r:hs1"
+		}
+		c, err := build(v, f)
+		if err != nil {
+			return "setup-error", short(err)
+		}
+		r := &room{ver: ver, v: v, create: c, last: c, depth: 1, id: "!r:hs1"}
+		if specDomainless(ver) {
+			r.id = "!" + c.EventID()[1:]
+		}
+		aj, err := r.add(spec.MRoomMember, strp(alice), alice, map[string]string{"membership": "join"}, r.create)
+		if err != nil {
+			return "setup-error", short(err)
+		}
+		pl, err := r.add(spec.MRoomPowerLevels, strp(""), creator,
+			map[string]interface{}{"users": map[string]int{bob: 100}, "users_default": 0, "state_default": 50, "events_default": 0}, r.create)
+		if err != nil {
+			return "setup-error", short(err)
+		}
+		name, err := r.add("m.room.name", strp(""), alice, map[string]string{"name": "n"}, r.create, aj, pl)
+		if err != nil {
+			return "setup-error", short(err)
+		}
+		err = allowed(name, r.create, aj, pl)
+		return acc(err), short(err)
+	case "restricted_assist":
+		r, err := newRoom(ver, v)
+		if err != nil {
+			return "setup-error", short(err)
+		}
+		cj, err := r.add(spec.MRoomMember, strp(creator), creator, map[string]string{"membership": "join"}, r.create)
+		if err != nil {
+			return "setup-error", short(err)
+		}
+		jr, err := r.add(spec.MRoomJoinRules, strp(""), creator,
+			map[string]interface{}{"join_rule": "restricted", "allow": []map[string]string{{"type": "m.room_membership", "room_id": "!other:hs1"}}}, r.create, cj)
+		if err != nil {
+			return "setup-error", short(err)
+		}
+		pl, err := r.add(spec.MRoomPowerLevels, strp(""), creator,
+			map[string]interface{}{"users": map[string]int{alice: 50}, "users_default": 0, "invite": 0}, r.create, cj)
+		if err != nil {
+			return "setup-error", short(err)
+		}
+		rid, err := spec.NewRoomID(r.id)
+		if err != nil {
+			return "setup-error", short(err)
+		}
+		q := &joinQuerier{state: map[string]gmsl.PDU{spec.MRoomCreate: r.create, spec.MRoomJoinRules: jr, spec.MRoomPowerLevels: pl},
+			info: &gmsl.RestrictedRoomJoinInfo{LocalServerInRoom: true, UserJoinedToRoom: true, JoinedUsers: []gmsl.PDU{cj}}}
+		via, err := v.CheckRestrictedJoin(context.Background(), origin, q, *rid, spec.SenderID(bob))
+		if err != nil {
+			return "error", short(err)
+		}
+		return via, ""
 
 	// ---- restricted joins ----
 	case "restricted_func":
